@@ -36,7 +36,7 @@ Definition sound_eval (f : nat) : Prop :=
     CInv p inp s -> (forall d, In d (expr_reads e) -> StkOk stk d) -> FrOk s fr -> is_read me ->
     ceval p f stk me e fr s = Ok (o, fr', s') ->
     CInv p inp s' /\ FrOk s' fr' /\ (forall d x, frR fr d x -> frR fr' d x) /\
-    (forall d, In d (map fst fr') -> In d (map fst fr) \/ In d (expr_reads e)) /\
+    (forall d, In d (map fst fr') -> In d (map fst fr) \/ srd p inp e d) /\
     exists z, o = CEVal z /\ ev (frR fr') e z.
 Definition sound_repair (f : nat) : Prop :=
   forall inp stk c n s s',
@@ -74,50 +74,64 @@ Definition walk_pre (inp : inputs) (n : node) (i : cinfo) (cs cleaned : list nod
        exists v, alookup (c_obs i) d = Some v /\ SpecI p inp d v) /\
   (forall d, dirty s n d -> In d cleaned \/ In d cs).
 
+Definition walk_why (inp : inputs) (i : cinfo) : Prop :=
+  exists d ov v, In d (c_fwd i) /\ alookup (c_obs i) d = Some ov /\ SpecI p inp d v /\ v <> ov.
+
 Lemma sound_walk : forall f inp n stk pd i, sound_query f ->
   StkOk stk n ->
   forall cs cleaned fr s rc cl' s1,
     CInv p inp s -> cget s n = Some i -> (forall d, In d cs -> In d (c_fwd i)) ->
     walk_pre inp n i cs cleaned s ->
     cwalk p f n stk pd i cs cleaned fr s = Ok (rc, cl', s1) ->
-    CInv p inp s1 /\ cget s1 n = Some i /\ (rc = false -> walk_pre inp n i [] cl' s1).
+    CInv p inp s1 /\ cget s1 n = Some i /\ (rc = false -> walk_pre inp n i [] cl' s1) /\
+    (rc = true -> walk_why inp i).
 Proof.
   intros f inp n stk pd i IHq Hstk.
   induction cs as [|cal r IH]; intros cleaned fr s rc cl' s1 HI Hi Hsub [Hcl Hdirty] H; cbn [cwalk] in H.
-  - inversion H. subst. split; [exact HI|]. split; [exact Hi|]. intros _. split; assumption.
+  - inversion H. subst. split; [exact HI|]. split; [exact Hi|]. split; [|discriminate]. intros _. split; assumption.
   - cbv zeta in H.
     assert (Hcal : In cal (c_fwd i)) by (apply Hsub; left; reflexivity).
     assert (Hsub' : forall d, In d r -> In d (c_fwd i)) by (intros; apply Hsub; right; assumption).
-    destruct (emem (n, cal) (cs_dirty s)) eqn:Edt.
-    + (* dirty edge *)
-      apply emem_In in Edt. cbn [negb andb] in H.
+    remember (emem (n, cal) (cs_dirty s)) as dt eqn:Edt. symmetry in Edt.
+    assert (Hdt : dt = false -> ~ dirty s n cal) by (intro K; subst dt; apply emem_false; exact K).
+    destruct (negb dt && negb pd) eqn:Eskip.
+    + apply andb_true_iff in Eskip. destruct Eskip as [Eskip _]. apply negb_true_iff in Eskip.
+      eapply IH; eauto. split; [exact Hcl|].
+      intros d K. destruct (Hdirty d K) as [K1|[<-|K1]]; auto. exfalso. apply (Hdt Eskip). exact K.
+    + clear Eskip.
       assert (Hstep : forall s0 fr0 ci ov,
                 CInv p inp s0 -> cget s0 n = Some i -> (forall a b, dirty s0 a b -> dirty s a b) ->
                 cget s0 cal = Some ci -> alookup (c_obs i) cal = Some ov ->
                 (forall x, ~ dirty s0 cal x) -> SpecI p inp cal (c_value ci) ->
                 (if negb (c_value ci =? ov) then Ok (true, cleaned, s0)
-                 else cwalk p f n stk pd i r (cleaned ++ [cal]) fr0 s0) = Ok (rc, cl', s1) ->
-                CInv p inp s1 /\ cget s1 n = Some i /\ (rc = false -> walk_pre inp n i [] cl' s1)).
+                 else cwalk p f n stk pd i r (if dt then cleaned ++ [cal] else cleaned) fr0 s0) = Ok (rc, cl', s1) ->
+                CInv p inp s1 /\ cget s1 n = Some i /\ (rc = false -> walk_pre inp n i [] cl' s1) /\
+                (rc = true -> walk_why inp i)).
       { intros s0 fr0 ci ov HI0 Hi0 Hsh Hci Hov Hnd Hsp H0.
         destruct (c_value ci =? ov) eqn:Ev; cbn [negb] in H0.
         - apply Z.eqb_eq in Ev. eapply IH; eauto. split.
-          + intros d Hd. apply in_app_or in Hd. destruct Hd as [Hd|[<-|[]]].
-            * destruct (Hcl d Hd) as (A & B & C). split; [exact A|]. split; [|exact C].
+          + intros d Hd.
+            assert (Hd' : In d cleaned \/ (dt = true /\ d = cal)).
+            { destruct dt; [|auto]. apply in_app_or in Hd. destruct Hd as [Hd|[<-|[]]]; auto. }
+            destruct Hd' as [Hd'|[_ ->]].
+            * destruct (Hcl d Hd') as (A & B & C). split; [exact A|]. split; [|exact C].
               intros x K. apply (B x). apply Hsh. exact K.
             * split; [exact Hcal|]. split; [exact Hnd|]. exists ov. split; [exact Hov|]. rewrite <- Ev. exact Hsp.
           + intros d K. apply Hsh in K. destruct (Hdirty d K) as [K1|[<-|K1]].
-            * left. apply in_or_app. auto.
-            * left. apply in_or_app. right. left. reflexivity.
+            * left. destruct dt; [apply in_or_app|]; auto.
+            * left. destruct dt; [apply in_or_app; right; left; reflexivity|]. exfalso. apply Hdt; auto.
             * right. exact K1.
-        - inversion H0. subst. split; [exact HI0|]. split; [exact Hi0|]. discriminate. }
+        - inversion H0. subst. split; [exact HI0|]. split; [exact Hi0|]. split; [discriminate|]. intros _.
+          exists cal, ov, (c_value ci). split; [exact Hcal|]. split; [exact Hov|]. split; [exact Hsp|].
+          apply Z.eqb_neq. exact Ev. }
       destruct (kind_eqb (nkind cal) KInput) eqn:Ek.
       * apply kind_eqb_eq in Ek.
         destruct (cget s cal) as [ci|] eqn:Eci; [|discriminate].
         destruct (alookup (c_obs i) cal) as [ov|] eqn:Eov; [|discriminate].
         destruct (ci_kind _ _ _ HI cal ci Eci) as [(K1 & K2 & K3)|[K1 _]]; [|congruence].
         eapply (Hstep s fr ci ov); eauto.
-        -- intros x K. destruct (ci_dirty_edge _ _ _ HI _ _ K) as [j [Hj Hx]].
-           assert (j = ci) by congruence. subst j. rewrite K2 in Hx. destruct Hx.
+        -- intros x K. destruct (ci_dirty_edge _ _ _ HI _ _ K) as [j [Hj Hxj]].
+           assert (j = ci) by congruence. subst j. rewrite K2 in Hxj. destruct Hxj.
         -- apply SpecI_input; assumption.
       * destruct (cquery p f (n :: stk) (CCRepair n pd) (Some fr) cal s) as [[[o fr'] s']| | |] eqn:Eq;
           try discriminate.
@@ -136,43 +150,6 @@ Proof.
         -- apply (mr_dirty _ _ _ HM).
         -- intros x. apply (ci_ver_clean _ _ _ HI'). exists ci. auto.
         -- eapply ci_ver_sound; eauto.
-    + (* clean edge *)
-      apply emem_false in Edt. cbn [negb andb] in H.
-      assert (Hpre' : forall s0, (forall a b, dirty s0 a b -> dirty s a b) -> walk_pre inp n i r cleaned s0).
-      { intros s0 Hsh. split.
-        - intros d Hd. destruct (Hcl d Hd) as (A & B & C). split; [exact A|]. split; [|exact C].
-          intros x K. apply (B x). apply Hsh. exact K.
-        - intros d K. apply Hsh in K. destruct (Hdirty d K) as [K1|[<-|K1]]; auto. contradiction. }
-      destruct pd; cbn [negb] in H.
-      * (* pedantic: the callee is repaired although the edge is clean *)
-        assert (Hstep : forall s0 fr0 ci ov,
-                  CInv p inp s0 -> cget s0 n = Some i -> (forall a b, dirty s0 a b -> dirty s a b) ->
-                  (if negb (c_value ci =? ov) then Ok (true, cleaned, s0)
-                   else cwalk p f n stk true i r cleaned fr0 s0) = Ok (rc, cl', s1) ->
-                  CInv p inp s1 /\ cget s1 n = Some i /\ (rc = false -> walk_pre inp n i [] cl' s1)).
-        { intros s0 fr0 ci ov HI0 Hi0 Hsh H0. destruct (negb (c_value ci =? ov)).
-          - inversion H0. subst. split; [exact HI0|]. split; [exact Hi0|]. discriminate.
-          - eapply IH; eauto. }
-        destruct (kind_eqb (nkind cal) KInput) eqn:Ek.
-        -- destruct (cget s cal) as [ci|] eqn:Eci; [|discriminate].
-           destruct (alookup (c_obs i) cal) as [ov|] eqn:Eov; [|discriminate].
-           eapply (Hstep s fr ci ov); eauto.
-        -- destruct (cquery p f (n :: stk) (CCRepair n true) (Some fr) cal s) as [[[o fr'] s']| | |] eqn:Eq;
-             try discriminate.
-           assert (HM : MonoR (n :: stk) s s') by (eapply (proj1 (mono_all p f)); eauto).
-           assert (Hrkc : (rk cal < rk n)%nat).
-           { destruct (ci_kind _ _ _ HI n i Hi) as [(_ & K2 & _)|[_ [e [He [_ Hr]]]]].
-             - rewrite K2 in Hcal. destruct Hcal.
-             - eapply Hrk; eauto. }
-           destruct (IHq inp (n :: stk) (CCRepair n true) (Some fr) cal s o fr' s' HI
-                       (StkOk_push _ _ _ Hstk Hrkc) Eq) as [HI' _].
-           destruct (cget s' cal) as [ci|] eqn:Eci; [|discriminate].
-           destruct (alookup (c_obs i) cal) as [ov|] eqn:Eov; [|discriminate].
-           destruct (mr_stk _ _ _ HM n (or_introl eq_refl)) as [Hn1 Hn2].
-           eapply (Hstep s' _ ci ov); eauto.
-           ++ congruence.
-           ++ apply (mr_dirty _ _ _ HM).
-      * eapply IH; eauto.
 Qed.
 
 Lemma sound_all : forall f, sound_query f /\ sound_execute f /\ sound_eval f /\ sound_repair f.
@@ -214,7 +191,7 @@ Proof.
                   (ex_intro _ n (ex_intro _ _ (ex_intro _ _ eq_refl))) Eev)
         as (HI1 & Hfr & _ & Hkeys & z & -> & Hev).
       assert (Hkeys' : forall d, In d (map fst fr1) -> In d (expr_reads e)).
-      { intros d Hd. destruct (Hkeys d Hd) as [[]|K]. exact K. }
+      { intros d Hd. destruct (Hkeys d Hd) as [[]|K]. eapply srd_expr_reads. exact K. }
       split.
       - eapply CInv_set_computed; eauto.
         + intro K. apply Hkeys' in K. specialize (Hrk _ _ _ Ee K). lia.
@@ -228,7 +205,8 @@ Proof.
                 FrOk s fr -> is_read me ->
                 cbin p f stk me a b op fr s = Ok (o, fr', s') ->
                 CInv p inp s' /\ FrOk s' fr' /\ (forall d x, frR fr d x -> frR fr' d x) /\
-                (forall d, In d (map fst fr') -> In d (map fst fr) \/ In d (expr_reads a ++ expr_reads b)) /\
+                (forall d, In d (map fst fr') -> In d (map fst fr) \/ srd p inp a d \/
+                     exists xa, sev p inp a xa /\ srd p inp b d) /\
                 exists x y, o = CEVal (op x y) /\ ev (frR fr') a x /\ ev (frR fr') b y).
       { intros inp stk me a b op fr s o fr' s' HI Hstk Hfr Hme H. unfold cbin in H.
         destruct (ceval p f stk me a fr s) as [[[x fr1] s1]| | |] eqn:E1; try discriminate.
@@ -239,8 +217,9 @@ Proof.
           as (HI2 & Hfr2 & Hsub2 & Hk2 & yv & -> & Hev2).
         inversion H. subst. split; [exact HI2|]. split; [exact Hfr2|]. split; [auto|]. split.
         - intros d Hd. destruct (Hk2 d Hd) as [K|K].
-          + destruct (Hk1 d K) as [K1|K1]; [left; exact K1|right; apply in_or_app; auto].
-          + right. apply in_or_app. auto.
+          + destruct (Hk1 d K) as [K1|K1]; [left; exact K1|right; left; exact K1].
+          + right. right. exists xv. split; [|exact K].
+            eapply ev_sev; [exact Hev1|]. intros d0 x0 _ Hx0. eapply frR_SpecI; eauto.
         - exists xv, yv. split; [reflexivity|]. split; [|exact Hev2].
           eapply ev_mono; [exact Hev1|]. intros d x0 _ Hx0. apply Hsub2. exact Hx0. }
       red. intros inp stk me e fr s o fr' s' HI Hstk Hfr Hme H. rewrite ceval_S in H. destruct e.
@@ -270,22 +249,32 @@ Proof.
           * exists (c_value i), i. auto.
           * destruct Hd as [Hd|Hd]; [|congruence].
             destruct (FrOk_mono _ _ _ _ HM Hfr d Hd) as [x [j K]]. exists x, j. exact K.
-        + intros d Hd. apply Hks in Hd. destruct Hd as [Hd| ->]; [left; exact Hd|right; left; reflexivity].
+        + intros d Hd. apply Hks in Hd. destruct Hd as [Hd| ->]; [left; exact Hd|right; constructor].
         + exists (c_value i). split; [reflexivity|]. constructor. unfold frR. rewrite Hlk, node_eqb_refl. reflexivity.
       - destruct (Hbin _ _ _ _ _ _ _ _ _ _ _ HI Hstk Hfr Hme H) as (A & B & C & D & x & y & -> & E1 & E2).
-        split; [exact A|]. split; [exact B|]. split; [exact C|]. split; [exact D|].
-        eexists. split; [reflexivity|]. constructor; assumption.
+        split; [exact A|]. split; [exact B|]. split; [exact C|]. split.
+        + intros d Hd. destruct (D d Hd) as [K|[K|[xa [K1 K2]]]]; [left; exact K|right|right].
+          * apply srd_add_l. exact K.
+          * eapply srd_add_r; eauto.
+        + eexists. split; [reflexivity|]. constructor; assumption.
       - destruct (Hbin _ _ _ _ _ _ _ _ _ _ _ HI Hstk Hfr Hme H) as (A & B & C & D & x & y & -> & E1 & E2).
-        split; [exact A|]. split; [exact B|]. split; [exact C|]. split; [exact D|].
-        eexists. split; [reflexivity|]. constructor; assumption.
+        split; [exact A|]. split; [exact B|]. split; [exact C|]. split.
+        + intros d Hd. destruct (D d Hd) as [K|[K|[xa [K1 K2]]]]; [left; exact K|right|right].
+          * apply srd_mul_l. exact K.
+          * eapply srd_mul_r; eauto.
+        + eexists. split; [reflexivity|]. constructor; assumption.
       - cbn [expr_reads] in Hstk.
         destruct (ceval p f stk me e fr s) as [[[x fr1] s1]| | |] eqn:E1; try discriminate.
         destruct (IHe inp _ _ _ _ _ _ _ _ HI Hstk Hfr Hme E1) as (HI1 & Hfr1 & Hsub1 & Hk1 & xv & -> & Hev1).
-        inversion H. subst. split; [exact HI1|]. split; [exact Hfr1|]. split; [exact Hsub1|]. split; [exact Hk1|].
-        eexists. split; [reflexivity|]. constructor. exact Hev1.
+        inversion H. subst. split; [exact HI1|]. split; [exact Hfr1|]. split; [exact Hsub1|]. split.
+        + intros d Hd. destruct (Hk1 d Hd) as [K|K]; [left; exact K|right; apply srd_mod; exact K].
+        + eexists. split; [reflexivity|]. constructor. exact Hev1.
       - destruct (Hbin _ _ _ _ _ _ _ _ _ _ _ HI Hstk Hfr Hme H) as (A & B & C & D & x & y & -> & E1 & E2).
-        split; [exact A|]. split; [exact B|]. split; [exact C|]. split; [exact D|].
-        eexists. split; [reflexivity|]. constructor; assumption.
+        split; [exact A|]. split; [exact B|]. split; [exact C|]. split.
+        + intros d Hd. destruct (D d Hd) as [K|[K|[xa [K1 K2]]]]; [left; exact K|right|right].
+          * apply srd_lt_l. exact K.
+          * eapply srd_lt_r; eauto.
+        + eexists. split; [reflexivity|]. constructor; assumption.
       - cbn [expr_reads] in Hstk.
         destruct (ceval p f stk me e1 fr s) as [[[x fr1] s1]| | |] eqn:E1; try discriminate.
         destruct (IHe inp _ _ _ _ _ _ _ _ HI (fun d Hd => Hstk d (in_or_app _ _ _ (or_introl Hd))) Hfr Hme E1)
@@ -294,9 +283,10 @@ Proof.
         { intros d Hd. apply Hstk. apply in_or_app. right. apply in_or_app. destruct (xv =? 0); auto. }
         destruct (IHe inp _ _ _ _ _ _ _ _ HI1 Hstk2 Hfr1 Hme H) as (HI2 & Hfr2 & Hsub2 & Hk2 & v & -> & Hev2).
         split; [exact HI2|]. split; [exact Hfr2|]. split; [auto|]. split.
-        + intros d Hd. cbn [expr_reads]. destruct (Hk2 d Hd) as [K|K].
-          * destruct (Hk1 d K) as [K1|K1]; [left; exact K1|right; apply in_or_app; auto].
-          * right. apply in_or_app. right. apply in_or_app. destruct (xv =? 0); auto.
+        + intros d Hd. destruct (Hk2 d Hd) as [K|K].
+          * destruct (Hk1 d K) as [K1|K1]; [left; exact K1|right; apply srd_if_c; exact K1].
+          * right. eapply srd_if_b; [|exact K].
+            eapply ev_sev; [exact Hev1|]. intros d0 x0 _ Hx0. eapply frR_SpecI; eauto.
         + exists v. split; [reflexivity|]. econstructor; [|exact Hev2].
           eapply ev_mono; [exact Hev1|]. intros d x0 _ Hx0. apply Hsub2. exact Hx0.
       - discriminate. }
@@ -309,13 +299,220 @@ Proof.
       { split; [intros d []|]. intros d K. right. destruct (ci_dirty_edge _ _ _ HI _ _ K) as [j [Hj Hd]].
         congruence. }
       destruct (sound_walk f inp n stk _ i IHq Hstk _ _ _ _ _ _ _ HI Eg (fun d Hd => Hd) Hpre Ew)
-        as (HI1 & Hi1 & Hpost).
+        as (HI1 & Hi1 & Hpost & _).
       destruct rc.
       - eapply IHx; eauto.
       - inversion H. subst s'. destruct (Hpost eq_refl) as [Hcl Hd]. split.
         + eapply CInv_clean; eauto. intros d K. destruct (Hd d K) as [K1|[]]. exact K1.
         + eexists. rewrite (cclean_cget _ _ _ _ _ Hi1), node_eqb_refl. split; [reflexivity|].
           cbn [c_verified]. rewrite cclean_ts. reflexivity. }
+    auto.
+Qed.
+
+(** * why a node is executed, and what its entry holds afterwards (for C03) *)
+Definition Justified (inp : inputs) (s : cstate) (m : node) : Prop :=
+  cget s m = None \/ exists i, cget s m = Some i /\ walk_why inp i.
+Definition ExecInfo (inp : inputs) (s : cstate) (m : node) : Prop :=
+  exists i b, cget s m = Some i /\ alookup p m = Some b /\
+    forall d, In d (c_fwd i) -> srd p inp b d /\ exists v, alookup (c_obs i) d = Some v /\ SpecI p inp d v.
+Definition LogP (inp : inputs) (s s' : cstate) : Prop :=
+  forall new, cs_log s' = new ++ cs_log s -> forall m, In m new -> Justified inp s m /\ ExecInfo inp s' m.
+
+Lemma LogP_samelog : forall inp s s', cs_log s' = cs_log s -> LogP inp s s'.
+Proof.
+  intros inp s s' E new Hn m Hm. rewrite E in Hn.
+  assert (new = []) by (apply (app_inv_tail (cs_log s)); rewrite <- Hn; reflexivity). subst. destruct Hm.
+Qed.
+
+Lemma LogP_trans : forall inp stk s s1 s2,
+  MonoR stk s s1 -> MonoR stk s1 s2 -> LogP inp s s1 -> LogP inp s1 s2 -> LogP inp s s2.
+Proof.
+  intros inp stk s s1 s2 M1 M2 L1 L2 new Hn m Hm.
+  destruct (mr_log _ _ _ M1) as [n1 [E1 [_ P1]]]. destruct (mr_log _ _ _ M2) as [n2 [E2 [_ P2]]].
+  assert (new = n2 ++ n1).
+  { apply (app_inv_tail (cs_log s)). rewrite <- Hn, E2, E1, app_assoc. reflexivity. }
+  subst new. apply in_app_or in Hm. destruct Hm as [Hm|Hm].
+  - destruct (L2 n2 E2 m Hm) as [J X]. split; [|exact X].
+    destruct (P2 m Hm) as (_ & Hnv & _).
+    destruct (mr_unch _ _ _ M1 m) as [K|K]; [|contradiction]. unfold Justified in *. rewrite <- K. exact J.
+  - destruct (L1 n1 E1 m Hm) as [J X]. split; [exact J|].
+    destruct (P1 m Hm) as (_ & _ & [j [Hj Hv]]). destruct X as [i [b (A & B & C)]].
+    assert (j = i) by congruence. subst j. exists i, b. split; [|auto]. eapply mr_ver; eauto.
+Qed.
+
+Definition just_query (f : nat) : Prop :=
+  forall inp stk c fr n s o fr' s',
+    CInv p inp s -> StkOk stk n -> cquery p f stk c fr n s = Ok (o, fr', s') -> LogP inp s s'.
+Definition just_execute (f : nat) : Prop :=
+  forall inp stk c n rc s s',
+    CInv p inp s -> StkOk stk n -> (rc = true \/ cget s n = None) ->
+    Justified inp s n -> ~ verified s n ->
+    cexecute p f stk c n rc s = Ok s' -> LogP inp s s'.
+Definition just_eval (f : nat) : Prop :=
+  forall inp stk me e fr s o fr' s',
+    CInv p inp s -> (forall d, In d (expr_reads e) -> StkOk stk d) -> FrOk s fr -> is_read me ->
+    ceval p f stk me e fr s = Ok (o, fr', s') -> LogP inp s s'.
+Definition just_repair (f : nat) : Prop :=
+  forall inp stk c n s s',
+    CInv p inp s -> StkOk stk n -> ~ verified s n -> crepair p f stk c n s = Ok s' -> LogP inp s s'.
+
+Lemma just_walk : forall f inp n stk pd i, just_query f ->
+  StkOk stk n ->
+  forall cs cleaned fr s rc cl' s1,
+    CInv p inp s -> cget s n = Some i -> (forall d, In d cs -> In d (c_fwd i)) ->
+    cwalk p f n stk pd i cs cleaned fr s = Ok (rc, cl', s1) -> LogP inp s s1.
+Proof.
+  intros f inp n stk pd i IHj Hstk.
+  induction cs as [|cal r IH]; intros cleaned fr s rc cl' s1 HI Hi Hsub H; cbn [cwalk] in H.
+  - inversion H. subst. apply LogP_samelog. reflexivity.
+  - cbv zeta in H.
+    assert (Hcal : In cal (c_fwd i)) by (apply Hsub; left; reflexivity).
+    assert (Hsub' : forall d, In d r -> In d (c_fwd i)) by (intros; apply Hsub; right; assumption).
+    destruct (negb (emem (n, cal) (cs_dirty s)) && negb pd).
+    + eapply IH; eauto.
+    + destruct (kind_eqb (nkind cal) KInput).
+      * destruct (cget s cal) as [ci|]; [|discriminate].
+        destruct (alookup (c_obs i) cal) as [ov|]; [|discriminate].
+        destruct (negb (c_value ci =? ov)).
+        -- inversion H. subst. apply LogP_samelog. reflexivity.
+        -- eapply IH; eauto.
+      * destruct (cquery p f (n :: stk) (CCRepair n pd) (Some fr) cal s) as [[[o fr'] s']| | |] eqn:Eq;
+          try discriminate.
+        assert (HM : MonoR (n :: stk) s s') by (eapply (proj1 (mono_all p f)); eauto).
+        assert (Hrkc : (rk cal < rk n)%nat).
+        { destruct (ci_kind _ _ _ HI n i Hi) as [(_ & K2 & _)|[_ [e [He [_ Hr]]]]].
+          - rewrite K2 in Hcal. destruct Hcal.
+          - eapply Hrk; eauto. }
+        pose proof (StkOk_push _ _ _ Hstk Hrkc) as Hstk'.
+        destruct (proj1 (sound_all f) inp _ _ _ _ _ _ _ _ HI Hstk' Eq) as [HI' _].
+        pose proof (IHj inp _ _ _ _ _ _ _ _ HI Hstk' Eq) as L1.
+        destruct (mr_stk _ _ _ HM n (or_introl eq_refl)) as [Hn1 _].
+        destruct (cget s' cal) as [ci|]; [|discriminate].
+        destruct (alookup (c_obs i) cal) as [ov|]; [|discriminate].
+        destruct (negb (c_value ci =? ov)).
+        -- inversion H. subst. exact L1.
+        -- assert (Hi' : cget s' n = Some i) by congruence.
+           pose proof (IH _ _ _ _ _ _ HI' Hi' Hsub' H) as L2.
+           assert (HM2 : MonoR (n :: stk) s' s1) by (eapply mono_walk; [apply (proj1 (mono_all p f))|exact H]).
+           eapply LogP_trans; eauto.
+Qed.
+
+Lemma just_all : forall f, just_query f /\ just_execute f /\ just_eval f /\ just_repair f.
+Proof.
+  induction f as [|f (IHq & IHx & IHe & IHr)].
+  - split; [|split; [|split]]; red; intros;
+      match goal with H : _ = Ok _ |- _ => cbn in H; discriminate H end.
+  - destruct (sound_all f) as (Sq & Sx & Se & Sr).
+    destruct (mono_all p f) as (Mq & Mx & Me & Mr).
+    assert (Hq : just_query (S f)).
+    { red. intros inp stk c fr n s o fr' s' HI Hstk H. rewrite cquery_S in H. cbv zeta in H.
+      destruct (nmem n stk) eqn:Es.
+      { inversion H. subst. apply LogP_samelog. reflexivity. }
+      destruct (cget s n) as [i|] eqn:Eg.
+      - destruct (c_verified i =? cs_ts s)%N eqn:Ev.
+        + apply cq_result_state in H. subst. apply LogP_samelog. reflexivity.
+        + destruct (crepair p f stk (cq_caller c n) n s) as [s1| | |] eqn:Er; try discriminate.
+          apply cq_result_state in H. subst. eapply IHr; eauto.
+          intros [j [Hj1 Hj2]]. rewrite Eg in Hj1. inversion Hj1. subst j.
+          apply N.eqb_neq in Ev. contradiction.
+      - destruct (cexecute p f stk (cq_caller c n) n false s) as [s1| | |] eqn:Er; try discriminate.
+        apply cq_result_state in H. subst. eapply IHx; eauto.
+        + left. exact Eg.
+        + intros [j [Hj1 _]]. congruence. }
+    assert (Hx : just_execute (S f)).
+    { red. intros inp stk c n rc s s' HI Hstk Hrc Hj Hnv H. rewrite cexecute_S in H. cbv zeta in H.
+      destruct (nkind n) eqn:Ek; try discriminate. destruct (alookup p n) as [e|] eqn:Ee; [|discriminate].
+      match type of H with context [ceval p f ?a ?b ?c ?d ?e] =>
+        destruct (ceval p f a b c d e) as [[[o fr1] s1]| | |] eqn:Eev; try discriminate end.
+      inversion H. subst s'. clear H.
+      pose proof (Me _ _ _ _ _ _ _ _ Eev) as HM.
+      assert (Hst : forall d, In d (expr_reads e) -> StkOk (n :: stk) d)
+        by (intros d Hd; apply StkOk_push; [exact Hstk|eapply Hrk; eauto]).
+      assert (Hfr0 : FrOk (cset_log s (n :: cs_log s)) []) by (intros d []).
+      assert (Hme : is_read (CCRead n (cc_pedantic c) match cget s n with Some i => c_fwd i | None => [] end))
+        by (eexists; eexists; eexists; reflexivity).
+      destruct (Se inp _ _ _ _ _ _ _ _ (CInv_log p inp s (n :: cs_log s) HI) Hst Hfr0 Hme Eev)
+        as (HI1 & Hfr & _ & Hkeys & z & -> & Hev).
+      pose proof (IHe inp _ _ _ _ _ _ _ _ (CInv_log p inp s (n :: cs_log s) HI) Hst Hfr0 Hme Eev) as L1.
+      destruct (mr_log _ _ _ HM) as [n1 [E1 [_ P1]]]. cbn [cset_log cs_log] in E1.
+      intros new Hn m Hm. rewrite cset_computed_log, E1 in Hn.
+      assert (new = n1 ++ [n]).
+      { apply (app_inv_tail (cs_log s)). rewrite <- Hn, <- app_assoc. reflexivity. }
+      subst new. apply in_app_or in Hm. destruct Hm as [Hm|[<-|[]]].
+      - destruct (L1 n1 E1 m Hm) as [J X]. split; [exact J|].
+        destruct (P1 m Hm) as (Hns & _). assert (Hne : n <> m) by (intro; subst; apply Hns; left; reflexivity).
+        destruct X as [i [b (A & B & C)]]. exists i, b. split; [|auto].
+        rewrite cset_computed_cget. apply node_eqb_neq in Hne. rewrite Hne. exact A.
+      - split; [exact Hj|]. eexists. exists e. rewrite cset_computed_cget, node_eqb_refl.
+        split; [reflexivity|]. split; [exact Ee|]. cbn [c_fwd c_obs]. intros d Hd. split.
+        + destruct (Hkeys d Hd) as [[]|K]. exact K.
+        + destruct (Hfr d Hd) as [x [j (A & B & C & D)]]. exists x. split; [apply cobserved_lookup; exact A|].
+          eapply frR_SpecI; eauto. }
+    assert (He : just_eval (S f)).
+    { assert (Hbin : forall inp stk me a b op fr s o fr' s',
+                CInv p inp s -> (forall d, In d (expr_reads a ++ expr_reads b) -> StkOk stk d) ->
+                FrOk s fr -> is_read me ->
+                cbin p f stk me a b op fr s = Ok (o, fr', s') -> LogP inp s s').
+      { intros inp stk me a b op fr s o fr' s' HI Hstk Hfr Hme H. unfold cbin in H.
+        destruct (ceval p f stk me a fr s) as [[[x fr1] s1]| | |] eqn:E1; try discriminate.
+        assert (Hs1 : forall d, In d (expr_reads a) -> StkOk stk d) by (intros; apply Hstk; apply in_or_app; auto).
+        assert (Hs2 : forall d, In d (expr_reads b) -> StkOk stk d) by (intros; apply Hstk; apply in_or_app; auto).
+        destruct (Se inp _ _ _ _ _ _ _ _ HI Hs1 Hfr Hme E1) as (HI1 & Hfr1 & _ & _ & xv & -> & _).
+        pose proof (IHe inp _ _ _ _ _ _ _ _ HI Hs1 Hfr Hme E1) as L1.
+        pose proof (Me _ _ _ _ _ _ _ _ E1) as M1.
+        destruct (ceval p f stk me b fr1 s1) as [[[y fr2] s2]| | |] eqn:E2; try discriminate.
+        destruct (Se inp _ _ _ _ _ _ _ _ HI1 Hs2 Hfr1 Hme E2) as (_ & _ & _ & _ & yv & -> & _).
+        pose proof (IHe inp _ _ _ _ _ _ _ _ HI1 Hs2 Hfr1 Hme E2) as L2.
+        pose proof (Me _ _ _ _ _ _ _ _ E2) as M2.
+        inversion H. subst. eapply LogP_trans; eauto. }
+      red. intros inp stk me e fr s o fr' s' HI Hstk Hfr Hme H. rewrite ceval_S in H. destruct e.
+      - inversion H. subst. apply LogP_samelog. reflexivity.
+      - destruct (cquery p f stk me (Some fr) n s) as [[[o1 fr1] s1]| | |] eqn:E1; try discriminate.
+        pose proof (IHq inp _ _ _ _ _ _ _ _ HI (Hstk n (or_introl eq_refl)) E1) as L1.
+        destruct o1; inversion H; subst; exact L1.
+      - eapply Hbin; eauto.
+      - eapply Hbin; eauto.
+      - cbn [expr_reads] in Hstk.
+        destruct (ceval p f stk me e fr s) as [[[x fr1] s1]| | |] eqn:E1; try discriminate.
+        pose proof (IHe inp _ _ _ _ _ _ _ _ HI Hstk Hfr Hme E1) as L1.
+        destruct x; inversion H; subst; exact L1.
+      - eapply Hbin; eauto.
+      - cbn [expr_reads] in Hstk.
+        destruct (ceval p f stk me e1 fr s) as [[[x fr1] s1]| | |] eqn:E1; try discriminate.
+        assert (Hs1 : forall d, In d (expr_reads e1) -> StkOk stk d) by (intros; apply Hstk; apply in_or_app; auto).
+        destruct (Se inp _ _ _ _ _ _ _ _ HI Hs1 Hfr Hme E1) as (HI1 & Hfr1 & _ & _ & xv & -> & _).
+        pose proof (IHe inp _ _ _ _ _ _ _ _ HI Hs1 Hfr Hme E1) as L1.
+        pose proof (Me _ _ _ _ _ _ _ _ E1) as M1.
+        assert (Hs2 : forall d, In d (expr_reads (if xv =? 0 then e3 else e2)) -> StkOk stk d).
+        { intros d Hd. apply Hstk. apply in_or_app. right. apply in_or_app. destruct (xv =? 0); auto. }
+        pose proof (IHe inp _ _ _ _ _ _ _ _ HI1 Hs2 Hfr1 Hme H) as L2.
+        pose proof (Me _ _ _ _ _ _ _ _ H) as M2.
+        eapply LogP_trans; eauto.
+      - discriminate. }
+    assert (Hr : just_repair (S f)).
+    { red. intros inp stk c n s s' HI Hstk Hnv H. rewrite crepair_S in H.
+      destruct (cget s n) as [i|] eqn:Eg; [|discriminate].
+      destruct (cwalk p f n stk (cc_pedantic c) i (c_fwd i) [] [] s) as [[[rc cl] s1]| | |] eqn:Ew;
+        try discriminate.
+      assert (Hpre : walk_pre inp n i (c_fwd i) [] s).
+      { split; [intros d []|]. intros d K. right. destruct (ci_dirty_edge _ _ _ HI _ _ K) as [j [Hj Hd]].
+        congruence. }
+      destruct (sound_walk f inp n stk _ i Sq Hstk _ _ _ _ _ _ _ HI Eg (fun d Hd => Hd) Hpre Ew)
+        as (HI1 & Hi1 & _ & Hwhy).
+      pose proof (just_walk f inp n stk _ i IHq Hstk _ _ _ _ _ _ _ HI Eg (fun d Hd => Hd) Ew) as L1.
+      pose proof (mono_walk p f n stk _ i Mq _ _ _ _ _ _ _ Ew) as M1.
+      destruct (mr_stk _ _ _ M1 n (or_introl eq_refl)) as [K1 _].
+      assert (Hnv1 : ~ verified s1 n).
+      { intros [j [J1 J2]]. apply Hnv. exists j. rewrite <- K1. split; [exact J1|].
+        rewrite <- (mr_ts _ _ _ M1). exact J2. }
+      apply MonoR_weaken in M1. destruct rc.
+      - assert (L2 : LogP inp s1 s').
+        { eapply IHx; eauto. right. exists i. split; [exact Hi1|]. apply Hwhy. reflexivity. }
+        assert (M2 : MonoR stk s1 s') by (eapply Mx; eauto; eapply StkOk_notin; eauto).
+        eapply LogP_trans; eauto.
+      - inversion H. subst s'.
+        assert (M2 : MonoR stk s1 (cclean s1 n cl)) by (eapply MonoR_clean; eauto; eapply StkOk_notin; eauto).
+        eapply LogP_trans; eauto. apply LogP_samelog. apply cclean_log. }
     auto.
 Qed.
 End Run.
